@@ -52,6 +52,12 @@ class M2(State):
         return False
 
 
+class MG[T](State):
+    n: int
+    trail: str
+    extra: T | None = None
+
+
 def concat(lhs, rhs):
     return type(rhs)(n=lhs.n + rhs.n, trail=lhs.trail + rhs.trail)
 
@@ -71,7 +77,7 @@ def view_first(cur, got):
 
 
 POSITIONS1 = ["out-pre", "root-pre", "c0-body", "root-post", "c0-late", "out-post"]
-OPTIONS = [("M1", "default"), ("M1", "concat"), ("M1", "raising"), ("M2", "default"), ("M2", "concat")]
+OPTIONS = [("M1", "default"), ("M1", "concat"), ("M1", "raising"), ("M2", "default"), ("M2", "concat"), ("MG", "concat")]
 
 
 def programs(tier: str):
@@ -105,7 +111,9 @@ def programs(tier: str):
                         if nchild and nrec == b["records"] and not any(p.startswith("c") for p in pos):
                             continue
                         for opts in itertools.product(range(len(OPTIONS)), repeat=nrec):
-                            if nrec >= 3 and (sum(1 for o in opts if o == 3) > 1 or 4 in opts):
+                            if nrec >= 3 and (sum(1 for o in opts if o == 3) > 1 or 4 in opts or 5 in opts):
+                                continue
+                            if nchild >= 1 and nrec == 2 and 5 in opts and opts != (5, 5):
                                 continue
                             if nrec == 4 and len(set(opts)) > 2:
                                 continue
@@ -145,7 +153,8 @@ def execute(program, ch: Chooser) -> Result:  # noqa: C901, PLR0915
 
     def do_record(i: int) -> None:
         _, tname, mname = recs[i]
-        T = M1 if tname == "M1" else M2
+        # the generic metric type is subscripted afresh at every record (MG[int] each time)
+        T = {"M1": M1, "M2": M2}.get(tname) or MG[int]
         metric = T(n=1, trail=letters[i])
         stack = stacks.get(cur_task_name(), [])
         target = stack[-1] if stack else None
@@ -171,7 +180,7 @@ def execute(program, ch: Chooser) -> Result:  # noqa: C901, PLR0915
     def make_cb(name: str, is_root: bool):
         def cb(metrics):
             scopes[name]["completed"] = True
-            entry = {"M1": metrics.read(M1), "M2": metrics.read(M2)}
+            entry = {"M1": metrics.read(M1), "M2": metrics.read(M2), "MG": metrics.read(MG[int])}
             if is_root:
                 entry["view_concat"] = metrics.metrics(merge=view_concat)
                 entry["view_first"] = metrics.metrics(merge=view_first)
@@ -296,7 +305,7 @@ def execute(program, ch: Chooser) -> Result:  # noqa: C901, PLR0915
             if sc.get("cb_count", 0) != 1:
                 viols.append(viol("completion", "callback-count", 1, sc.get("cb_count", 0), scope=name))
                 continue
-            for tname in ("M1", "M2"):
+            for tname in ("M1", "M2", "MG"):
                 got = tup(sc["cb"][tname])
                 want = ref[name].get(tname)
                 if got != want:
@@ -339,7 +348,7 @@ def execute(program, ch: Chooser) -> Result:  # noqa: C901, PLR0915
 
             for f_name, key in (("concat", "view_concat"), ("first", "view_first")):
                 got_list = scopes["root"]["cb"][key]
-                got = {type(m).__name__: (m.n, m.trail) for m in got_list}
+                got = {("MG" if type(m).__name__.startswith("MG") else type(m).__name__): (m.n, m.trail) for m in got_list}
                 want = fold(f_name)
                 if got != want or len(got_list) != len(got):
                     viols.append(viol("merged-view", f_name, want, got, order=[[recs[i][0], letters[i], t] for i, t in observed_order]))
